@@ -116,6 +116,8 @@ type connState struct {
 	handlerEnded string
 	faulty       bool // something other than the single local close may have cut the stream
 	closeReq     bool // the application has called Close on the running session
+	closeAt      time.Duration
+	dialAt       time.Duration
 	ownInstalled bool // UpdateHandler has been called for the session
 }
 
@@ -201,22 +203,29 @@ func runC16(t *testing.T, sci interface{}, keepLog bool) *hx.Outcome {
 		p := cs.plan
 		return p.End == "local-close" && p.SecondEnd == "" && p.ClientReads && p.ReadDelayMs == 0 && p.DeadlineFault == 0 && p.IdleMs < sc.ReadTO && cs.handlerEnded == ""
 	}
+	// the shorter of the two configured timeouts: nothing that works without a timeout may take that long
+	grace := time.Duration(sc.ReadTO) * time.Millisecond
+	if w := time.Duration(sc.WriteTO) * time.Millisecond; w < grace {
+		grace = w
+	}
 	advance := func(s *simrt.Sim, to time.Duration) {
-		// every goroutine is blocked and the clock is about to move: a session whose application has called Close, whose
-		// peer reads and which nothing else disturbs must be over by now - it must not need a read or write timeout to end
+		// every goroutine is blocked and the clock is about to jump to `to`. Bounded liveness, stated against the simulated
+		// clock: what needs no timeout must not still be pending a whole timeout period later.
 		if sc.AccErrs == 0 && len(sc.Conns) <= int(sc.MaxConn) {
-			// ... and the accept loop must have served every connection made so far (none is surplus, no accept error makes
-			// it back off): a connection still waiting for its session now is waiting for another session to end
+			// the accept loop must serve every connection made (none is surplus, no accept error makes it back off): a
+			// connection still without a session a timeout period after it was dialled is waiting for another session to end
 			for ci, cs := range states {
-				if !cs.plan.Direct && !cs.started && cs.client != nil {
-					s.Fail("accept-loop-stalled", "client-%d was dialled, it is not surplus and no accept error was injected, yet it has no session when nothing can run any more without the clock advancing (to %v): the accept loop is not serving connections while a session runs", ci, to)
+				if !cs.plan.Direct && !cs.started && cs.client != nil && to-cs.dialAt >= grace {
+					s.Fail("accept-loop-stalled", "client-%d was dialled at %v, it is not surplus and no accept error was injected, yet it has no session and nothing can run until %v: the accept loop is not serving connections while a session runs", ci, cs.dialAt, to)
 					return
 				}
 			}
 		}
 		for ci, cs := range states {
-			if cs.closeReq && cs.exits == 0 && clean(cs) {
-				s.Fail("local-close-waits-for-a-timeout", "client-%d: the application called Close on the session, the peer reads, yet the session is still not over when nothing can run any more without the clock advancing (to %v)", ci, to)
+			// a session whose application has called Close, whose peer reads and which nothing else disturbs ends by that
+			// Close - not by the read or write timeout that happens to come next
+			if cs.closeReq && cs.exits == 0 && clean(cs) && to-cs.closeAt >= grace {
+				s.Fail("local-close-waits-for-a-timeout", "client-%d: the application called Close on the session at %v, the peer reads, yet the session is still not over and nothing can run until %v (a whole timeout period later)", ci, cs.closeAt, to)
 			}
 		}
 	}
@@ -258,7 +267,7 @@ func runC16(t *testing.T, sci interface{}, keepLog bool) *hx.Outcome {
 				simrt.Yield()
 			}
 			name := fmt.Sprintf("client-%d", ci)
-			cs := &connState{plan: plan}
+			cs := &connState{plan: plan, dialAt: s.Now()}
 			h.conns[name] = cs
 			states = append(states, cs)
 			if plan.Direct {
@@ -292,7 +301,7 @@ func runC16(t *testing.T, sci interface{}, keepLog bool) *hx.Outcome {
 				case "local-close":
 					if cs.sess != nil {
 						if cs.exits == 0 {
-							cs.closeReq = true
+							cs.closeReq, cs.closeAt = true, s.Now()
 						}
 						cs.sess.Close()
 						s.Logf("local close %s", name)
